@@ -370,6 +370,14 @@ pub fn gen_c07(r: &mut Rng, id: u64, thorough: bool) -> Value {
 pub fn gen_c05(r: &mut Rng, id: u64, thorough: bool) -> Value {
     let mut ops = vec![];
     let small = |r: &mut Rng| -> (String, String) { (r.pick(&["c1", "c2"]).to_string(), r.pick(&["n1", "n2", "n3", "n4"]).to_string()) };
+    // a REFUSED opening first (half of the cases): a transaction / plain session on a profile that does not exist must leave
+    // nothing behind on the pooled connection it used (seed C05g: the refused transaction's BEGIN stayed open on it)
+    if r.chance(1, 2) {
+        ops.push(json!({"op": "session", "s": 19, "profile": "ghost", "txn": r.chance(3, 4)}));
+        // sessions are lazy: the first call on it resolves the profile (and is refused)
+        ops.push(json!({"op": "fetch", "s": 19, "k": 2, "c": "c1", "n": "n1"}));
+        ops.push(json!({"op": "drop", "s": 19}));
+    }
     // pre-populate through a plain session
     ops.push(json!({"op": "session", "s": 1, "txn": false}));
     for _ in 0..r.below(5) {
